@@ -12,7 +12,10 @@ pub const BOUNDARY: [&str; 6] = ["-1", "0", "1", "2147483647", "4294967295", "18
 pub struct Slot {
     pub options: Vec<String>,
     pub default: usize,
+    /// numeric and auxiliary slots are varied one at a time (the others at their defaults); the remaining
+    /// slots (the reference graph of the fragment) are enumerated jointly
     pub numeric: bool,
+    pub aux: bool,
 }
 
 #[derive(Clone)]
@@ -60,24 +63,24 @@ pub fn rf(id: u64) -> String {
 fn refs_slot(targets: &[u64], default: u64) -> Slot {
     let options: Vec<String> = targets.iter().map(|t| rf(*t)).collect();
     let d = targets.iter().position(|t| *t == default).unwrap_or(0);
-    Slot { options, default: d, numeric: false }
+    Slot { options, default: d, numeric: false, aux: false }
 }
 
 fn opt_key_slot(key: &str, targets: &[u64], default: Option<u64>) -> Slot {
     let mut options = vec![String::new()];
     options.extend(targets.iter().map(|t| format!("/{} {}", key, rf(*t))));
     let d = match default { None => 0, Some(x) => 1 + targets.iter().position(|t| *t == x).unwrap_or(0) };
-    Slot { options, default: d, numeric: false }
+    Slot { options, default: d, numeric: false, aux: false }
 }
 
 fn num_slot(default: &str) -> Slot {
     let mut options: Vec<String> = vec![default.to_string()];
     options.extend(BOUNDARY.iter().map(|s| s.to_string()).filter(|s| s != default));
-    Slot { options, default: 0, numeric: true }
+    Slot { options, default: 0, numeric: true, aux: false }
 }
 
 fn choice_slot(options: Vec<String>, default: usize) -> Slot {
-    Slot { options, default, numeric: false }
+    Slot { options, default, numeric: false, aux: false }
 }
 
 fn subst(t: &str, slots: &[Slot], choice: &[usize]) -> String {
@@ -128,7 +131,7 @@ impl Frag {
     /// (one at a time, the rest at default); then `joint` random joint assignments.
     pub fn enumerate(&self, limit: usize, joint: usize, rng: &mut Rng) -> (Vec<Planted>, bool) {
         let mut out = vec![];
-        let idx: Vec<usize> = (0..self.slots.len()).filter(|k| !self.slots[*k].numeric).collect();
+        let idx: Vec<usize> = (0..self.slots.len()).filter(|k| !self.slots[*k].numeric && !self.slots[*k].aux).collect();
         let total: u128 = idx.iter().map(|k| self.slots[*k].options.len() as u128).product();
         let exhaustive = total <= limit as u128;
         if exhaustive {
@@ -166,7 +169,7 @@ impl Frag {
             }
         }
         for k in 0..self.slots.len() {
-            if self.slots[k].numeric {
+            if self.slots[k].numeric || self.slots[k].aux {
                 for o in 0..self.slots[k].options.len() {
                     if o != self.slots[k].default {
                         let mut c = self.defaults();
@@ -321,8 +324,8 @@ pub fn fonts(k: usize) -> Frag {
     }
     let fdt: Vec<u64> = vec![21, 22, 20, 10];
     let b = slots.len();
-    slots.push(opt_key_slot("FontFile2", &fdt, Some(22)));
-    slots.push(opt_key_slot("FontFile3", &fdt, None));
+    slots.push(Slot { aux: true, ..opt_key_slot("FontFile2", &fdt, Some(22)) });
+    slots.push(Slot { aux: true, ..opt_key_slot("FontFile3", &fdt, None) });
     objs.push((20, Body::Plain(format!("<< /Type /FontDescriptor /FontName /Leaf /Flags 4 /FontBBox [0 0 1 1] /ItalicAngle 0 {{{}}} {{{}}} >>", b, b + 1))));
     let cmap = b"/CIDInit /ProcSet findresource begin begincmap 1 beginbfchar <0001> <0041> endbfchar 1 beginbfrange <0002> <0004> <0042> endbfrange endcmap";
     objs.push((21, Body::Stream(String::new(), None, cmap.to_vec())));
@@ -403,7 +406,7 @@ pub fn colorspaces(k: usize) -> Frag {
         alt.push(format!("/Alternate {}", rf(*a)));
     }
     alt.push("/Alternate [/ICCBased 20 0 R]".into());
-    slots.push(choice_slot(alt, 0));
+    slots.push(Slot { aux: true, ..choice_slot(alt, 0) });
     objs.push((20, Body::Stream(format!("/N 3 {{{}}}", b), None, vec![0u8; 16])));
     objs.push((21, Body::Plain("<< /FunctionType 2 /Domain [0.0 1.0] /C0 [0.0 0.0 0.0] /C1 [1.0 0.5 0.25] /N 1.0 >>".into())));
     objs.push((22, Body::Stream("/FunctionType 4 /Domain [0.0 1.0 0.0 1.0] /Range [0.0 1.0 0.0 1.0 0.0 1.0]".into(), None, b"{ dup 3 1 roll add 2 index }".to_vec())));
@@ -661,8 +664,8 @@ pub fn annotations(k: usize) -> Frag {
         (7, Body::Stream("/Type /XObject /Subtype /Form /BBox [0 0 1 1]".into(), None, b"q Q".to_vec())),
     ];
     let mut slots = vec![];
-    slots.push(refs_slot(&[10, 11, 7, 3, 8], 10));
-    slots.push(opt_key_slot("P", &[3, 2, 8, 10], Some(3)));
+    slots.push(Slot { aux: true, ..refs_slot(&[10, 11, 7, 3, 8], 10) });
+    slots.push(Slot { aux: true, ..opt_key_slot("P", &[3, 2, 8, 10], Some(3)) });
     objs.push((8, Body::Plain("<< /Type /Annot /Subtype /Widget /Rect [0 0 1 1] {1} /AP << /N {0} /D {0} >> >>".into())));
     for (i, id) in t.iter().enumerate() {
         let mut options = vec!["<< /On 7 0 R /Off 7 0 R >>".to_string(), rf(7)];
